@@ -632,12 +632,73 @@ class GpioInst(ClientInst):
 
     def sample(self):
         outs = ClientInst.sample(self)
+        n, c = self.netlist, self.core
+        self.gpio_obs = (n.getu(c._in.status), n.getu(c._mode.storage), n.getu(c._edge.storage))
         return outs + [vec(self.last_obs["trig"])]
 
     def model_letter(self, letter):
         l, we, dat = self.bus_of(letter)
         i, m, e = self.trig_log[letter[0]]
         return (i, m, e, l, we, dat)
+
+    def monitor(self):
+        return GpioPadOracle(self)
+
+    def gen(self, rng, t):
+        """Default client traffic, plus whole-register writes to `_mode` / `_edge` (all-Change, all-Edge, mixed,
+        rising / falling) so that every mode is exercised on several pads at once."""
+        letter = ClientInst.gen(self, rng, t)
+        if not self._queue and rng.random() < (0.25 if t < 40 else 0.02):
+            v, c = self.view, self.core
+            ids = [id(x) for x in self.top.bank.simple_csrs]
+            reg = c._mode if rng.random() < 0.6 else c._edge
+            full = (1 << v.n) - 1
+            value = rng.choice([full, full, 0, rng.getrandbits(v.n)])
+            scs = list(reg.simple_csrs)
+            nw = len(scs)
+            seq = []
+            for pos, sc in enumerate(scs):
+                w = pos if v.ordering == "little" else nw - 1 - pos
+                seq.append((ids.index(id(sc)), (value >> (w * v.bw)) & ((1 << v.bw) - 1)))
+            adr, dat = seq.pop(0)
+            self._queue = seq
+            return letter[:1 + self.ns] + (adr, 1, dat, 0)
+        return letter
+
+
+class GpioPadOracle:
+    """Model-independent oracle for `_GPIOIRQ` with any number of pads, on top of the lost-event monitor (which turns
+    every trigger edge into "pending next cycle, kept until an addressed clear, never without an event"):
+    the trigger of pad k is a function of pad k ALONE - Change mode (`_mode[k]`=1): the synchronised pad k differs
+    from its own value one cycle earlier; Edge mode: synchronised pad k XOR `_edge[k]` (rising / falling).  The
+    reference keeps one delayed sample per pad; mode/edge are the values of the real storage registers.  So event k
+    is pending iff pad k (after the synchroniser) made the configured transition since the last clear."""
+
+    def __init__(self, inst):
+        self.inst = inst
+        self.base = LostEventMonitor(inst.view, lambda: inst.last_obs, inst.bus_of, strict=True, foreign_reads=True)
+        self.prev = 0
+
+    def observe(self, letter, outs):
+        m = self.base.observe(letter, outs)
+        if m:
+            return m
+        inst = self.inst
+        pads, mode, edge = inst.gpio_obs
+        trig = inst.last_obs["trig"]
+        for k in range(inst.view.n):
+            p, d = (pads >> k) & 1, (self.prev >> k) & 1
+            if (mode >> k) & 1:
+                want, why = p ^ d, "Change mode, pad %d was %d and is %d" % (k, d, p)
+            else:
+                e = (edge >> k) & 1
+                want, why = p ^ e, "Edge mode (%s), pad %d is %d" % ("falling" if e else "rising", k, p)
+            if trig[k] != want:
+                was, self.prev = self.prev, pads
+                return "GPIO pad %d: trigger=%d, expected %d (%s; all pads were %#x, are %#x)" % (
+                    k, trig[k], want, why, was, pads)
+        self.prev = pads
+        return None
 
 
 class GpioSyncInst(GpioInst):
@@ -689,7 +750,7 @@ class SyncDelayMonitor:
 
     def __init__(self, inst):
         self.inst = inst
-        self.base = LostEventMonitor(inst.view, lambda: inst.last_obs, inst.bus_of, strict=True, foreign_reads=True)
+        self.base = GpioPadOracle(inst)
         self.hist = [0, 0]
 
     def observe(self, letter, outs):
